@@ -52,7 +52,7 @@ func genC04(t *rapid.T) kit.History {
 	for i, k := 0, rapid.IntRange(2, 4).Draw(t, "nRefStores"); i < k; i++ {
 		refStores = append(refStores, allRefStores[rapid.IntRange(0, len(allRefStores)-1).Draw(t, fmt.Sprintf("refStore%d", i))])
 	}
-	return kit.GenHistory(t, c04Cfg, 20, 3, false, 30, func(t *rapid.T, l string, m *kit.Model) kit.Op {
+	return kit.GenHistory(t, c04Cfg, 20, 3, true, 30, func(t *rapid.T, l string, m *kit.Model) kit.Op {
 		existing := func(store string) []string {
 			var out []string
 			for _, id := range ids {
